@@ -27,6 +27,16 @@ declare -A CHECKS=(
  [C18-import-dedups-index-per-validator]="C18"
  [C19-reward-history-order-from-map]="C19"
  [C20-delegation-list-balance-cache]="C20"
+ [C01-takerate-dust-asset-returns-early]="C01 C09"
+ [C02-unbonding-index-only-for-new-bucket]="C02 C07"
+ [C03-slash-redelegation-deletes-delegation-keeps-validator-shares]="C03 C07"
+ [C04-redelegate-moves-source-priced-shares]="C04 C15"
+ [C06-slash-skips-warming-up-assets]="C06"
+ [C09-clock-advances-one-interval]="C09"
+ [C12-zero-payout-skips-index-update]="C12 C13"
+ [C14-weight-change-skips-unbonded-validators]="C14"
+ [C16-create-accepts-weight-above-max]="C16"
+ [C20-redelegations-query-ignores-denom]="C20"
 )
 mkdir -p /verif/out/seeded
 ids=("$@"); [ ${#ids[@]} -eq 0 ] && ids=($(ls -d /verif/seeded/*/ | xargs -n1 basename))
